@@ -9,6 +9,7 @@ import Proofs.C02
 import Proofs.C02Ext
 import Proofs.C02ExtReplace
 import Proofs.C02Refuse
+import Proofs.C02Positional
 
 namespace MongoModel.Props.C02
 open MongoModel MongoModel.Spec
@@ -609,5 +610,283 @@ example :
     (lastGet "x" [("x", .int 1), ("_id", .dbl 1 0), ("x", .int 2)] == some (.int 2)) = true ∧
     (match replaceWhole [("_id", .int 2)] (.doc [("_id", .int 1)]) with
       | .error .opFail => true | _ => false) = true := by decide +kernel
+
+/-! ### the positional operator `$`
+
+`{op: {"f.$.x": v}}` with a query that matched an element of the array `f`.  The rule is
+`Spec.posIndex` (Spec/UpdatePositional.lean): `$` stands for the index of the FIRST element
+satisfying the query's condition on `f`; a query without such a condition, or one no element
+satisfies, makes the update an error.  The theorems hold on `Spec.posDomain f filter q`: the query
+has no `$`-key, ONE condition on `f` — `f.<path>: c` or `f: {$elemMatch: {…fields…}}`, which
+asks the element to match the query `q` — and no other key that merely starts with the letters of
+`f`.  The matcher is C01's: the hypotheses `hC01` / `hok` say that on the pairs (`q`, element)
+the model's matcher answers what the matching rules say, without raising (`Props.C01.
+matches_eq_spec_partial` gives that on C01's domain).  The path is given by its components
+(`splitDots key = [f, "$", x]`).  Outside the domain the code departs from the rule in the ways
+listed at the end of Spec/UpdatePositional.lean; each class has a kernel-checked witness below and
+a replayed one in known_findings.json. -/
+
+/-- **`$` resolves to the first match** (`$set`): on the domain the model's answer is the rule's:
+    the document with the field `x` of the FIRST element of `f` satisfying the query's condition
+    set to `v` and nothing else changed, or an error when no element satisfies it. -/
+theorem positional_resolves_first_match (filter : Fields) (key f x : String) (v now : Val)
+    (fs : Fields) (xs : List Val) (q : Val) (hf : plainName f = true) (hx : plainName x = true)
+    (hkey : splitDots key = [f, "$", x]) (hdol : hasDollarPart key = true)
+    (hD : posDomain f filter q) (ha : dget f fs = some (.arr xs))
+    (hnum : pyInt? x = none) (hdocs : xs.all isDocVal = true)
+    (hC01 : ∀ el ∈ xs, filterApplies q el = specMatches q el)
+    (hok : ∀ el ∈ xs, ∃ b, specMatches q el = .ok b) :
+    Agrees (applyUpdate (.doc filter) (.doc [("$set", .doc [(key, v)])]) now false (.doc fs))
+      (positionalEdit f filter false (setField x v) fs) :=
+  Proofs.C02.positional_resolves_first_match filter key f x v now fs xs q hf hx hkey hdol hD ha hnum
+    hdocs hC01 hok
+
+attribute [local instance] MongoModel.Proofs.valDecEq MongoModel.Proofs.C02Lemmas.elemCondDecEq
+
+/-- the example used below: three elements, the query asks for `k = 2` -/
+private def exDoc : Fields :=
+  [("_id", .int 1), ("a", .arr [.doc [("k", .int 1), ("v", .int 0)], .doc [("k", .int 2), ("v", .int 0)],
+    .doc [("k", .int 2), ("v", .int 5)]]), ("c", .int 1)]
+
+private def exXs : List Val :=
+  [.doc [("k", .int 1), ("v", .int 0)], .doc [("k", .int 2), ("v", .int 0)], .doc [("k", .int 2), ("v", .int 5)]]
+
+/-- non-vacuity: `{a.k: 2}` / `{a: {$elemMatch: {k: 2}}}` with `{$set: {a.$.v: 9}}`: every
+    hypothesis holds, the rule gives index 1, the model sets `v` of the second element -/
+example : plainName "a" = true ∧ plainName "v" = true ∧ splitDots "a.$.v" = ["a", "$", "v"] ∧
+    hasDollarPart "a.$.v" = true ∧ dget "a" exDoc = some (.arr exXs) ∧ pyInt? "v" = none ∧
+    exXs.all isDocVal = true ∧
+    (∀ el ∈ exXs, filterApplies (.doc [("k", .int 2)]) el = specMatches (.doc [("k", .int 2)]) el) ∧
+    posIndex "a" [("a.k", .int 2)] exXs = some (some 1) ∧
+    posIndex "a" [("a", .doc [("$elemMatch", .doc [("k", .int 2)])]), ("c", .int 1)] exXs = some (some 1) ∧
+    okIs (applyUpdate (.doc [("a.k", .int 2)]) (.doc [("$set", .doc [("a.$.v", .int 9)])]) .null false (.doc exDoc))
+      (.doc [("_id", .int 1), ("a", .arr [.doc [("k", .int 1), ("v", .int 0)],
+        .doc [("k", .int 2), ("v", .int 9)], .doc [("k", .int 2), ("v", .int 5)]]), ("c", .int 1)]) = true := by
+  decide +kernel
+
+example : posDomain "a" [("a.k", .int 2)] (.doc [("k", .int 2)]) :=
+  ⟨by decide +kernel, ("a.k", .int 2), by decide +kernel, by decide +kernel, by decide +kernel⟩
+
+example : posDomain "a" [("a", .doc [("$elemMatch", .doc [("k", .int 2)])]), ("c", .int 1)]
+    (.doc [("k", .int 2)]) :=
+  ⟨by decide +kernel, ("a", .doc [("$elemMatch", .doc [("k", .int 2)])]), by decide +kernel,
+    by decide +kernel, by decide +kernel⟩
+
+example : ∀ el ∈ exXs, ∃ b, specMatches (.doc [("k", .int 2)]) el = .ok b := by
+  intro el hm
+  simp only [exXs, List.mem_cons, List.not_mem_nil, or_false] at hm
+  rcases hm with rfl | rfl | rfl
+  · exact ⟨false, by decide +kernel⟩
+  · exact ⟨true, by decide +kernel⟩
+  · exact ⟨true, by decide +kernel⟩
+
+/-- **Every `_updaters` operator** (`$set $unset $inc $min $max $pop`): the element at the index
+    the rule gives — it satisfies the condition, no element before it does — is handed to the
+    operator (`runUpdater … el x v`: the per-operator theorems above say what that does), and the
+    result is the document with that element replaced. -/
+theorem positional_updater_resolves (op : String) (u : Updater) (hop : updaterOf op = some u)
+    (filter : Fields) (key f x : String) (v now : Val) (wi : Bool) (fs : Fields) (xs : List Val)
+    (q : Val) (hf : plainName f = true) (hx : plainName x = true)
+    (hkey : splitDots key = [f, "$", x]) (hdol : hasDollarPart key = true)
+    (hD : posDomain f filter q) (ha : dget f fs = some (.arr xs))
+    (hC01 : ∀ el ∈ xs, filterApplies q el = specMatches q el)
+    (hok : ∀ el ∈ xs, ∃ b, specMatches q el = .ok b) (i : Nat)
+    (hi : posIndex f filter xs = some (some i)) :
+    ∃ el, xs[i]? = some el ∧ (ElemCond.sub q).sat el = true ∧
+      (∀ j, j < i → ∀ ej, xs[j]? = some ej → (ElemCond.sub q).sat ej = false) ∧
+      applyUpdate (.doc filter) (.doc [(op, .doc [(key, v)])]) now wi (.doc fs) =
+        (runUpdater u now el x v).map (fun el' => Val.doc (dset f (.arr (xs.set i el')) fs)) :=
+  Proofs.C02.positional_updater_resolves op u hop filter key f x v now wi fs xs q hf hx hkey hdol hD
+    ha hC01 hok i hi
+
+/-- non-vacuity: `$inc` through `a.$.v` with `{a.k: {$gte: 2}}` adds to the second element -/
+example : updaterOf "$inc" = some .inc ∧
+    posIndex "a" [("a.k", .doc [("$gte", .int 2)])] exXs = some (some 1) ∧
+    okIs (applyUpdate (.doc [("a.k", .doc [("$gte", .int 2)])]) (.doc [("$inc", .doc [("a.$.v", .int 3)])])
+        .null false (.doc exDoc))
+      (.doc [("_id", .int 1), ("a", .arr [.doc [("k", .int 1), ("v", .int 0)],
+        .doc [("k", .int 2), ("v", .int 3)], .doc [("k", .int 2), ("v", .int 5)]]), ("c", .int 1)]) = true := by
+  decide +kernel
+
+/-- **Frame.**  A successful positional update through `f.$.x` changes nothing but the field `x`
+    of the element at the resolved index: every other top-level field, every other element of the
+    array (and its length), every other field of that element are as before. -/
+theorem positional_frame (op : String) (u : Updater) (hop : updaterOf op = some u)
+    (filter : Fields) (key f x : String) (v now : Val) (wi : Bool) (fs fs' : Fields)
+    (xs : List Val) (q : Val) (hf : plainName f = true) (hx : plainName x = true)
+    (hkey : splitDots key = [f, "$", x]) (hdol : hasDollarPart key = true)
+    (hD : posDomain f filter q) (ha : dget f fs = some (.arr xs))
+    (hC01 : ∀ el ∈ xs, filterApplies q el = specMatches q el)
+    (hok : ∀ el ∈ xs, ∃ b, specMatches q el = .ok b) (i : Nat)
+    (hi : posIndex f filter xs = some (some i))
+    (h : applyUpdate (.doc filter) (.doc [(op, .doc [(key, v)])]) now wi (.doc fs) = .ok (.doc fs')) :
+    (∀ k, k ≠ f → dget k fs' = dget k fs) ∧
+    ∃ ys, dget f fs' = some (.arr ys) ∧ ys.length = xs.length ∧
+      (∀ j, j ≠ i → ys[j]? = xs[j]?) ∧
+      (∀ es, xs[i]? = some (.doc es) →
+        ∃ es', ys[i]? = some (.doc es') ∧ ∀ k, k ≠ x → dget k es' = dget k es) :=
+  Proofs.C02.positional_frame op u hop filter key f x v now wi fs fs' xs q hf hx hkey hdol hD ha hC01
+    hok i hi h
+
+/-- … and at the top level the frame needs no domain at all: `untouched_fields` covers every
+    modelled update, positional or not (a positional path `f.$.x` addresses `f`).  Non-vacuity:
+    a positional `$unset` next to a plain `$inc` leaves `_id` and `z` alone -/
+example :
+    let u : Fields := [("$unset", .doc [("a.$.v", .str "")]), ("$inc", .doc [("c", .int 1)])]
+    positionalUpdate u = true ∧ addressed u = ["a", "c"] ∧
+    okIs (applyUpdate (.doc [("a.k", .int 2)]) (.doc u) .null false (.doc (exDoc ++ [("z", .int 0)])))
+      (.doc [("_id", .int 1), ("a", .arr [.doc [("k", .int 1), ("v", .int 0)], .doc [("k", .int 2)],
+        .doc [("k", .int 2), ("v", .int 5)]]), ("c", .int 2), ("z", .int 0)]) = true := by
+  decide +kernel
+
+/-- **No element satisfies the condition: an error** (`$set $inc $min $max $pop`; the rule's
+    "did not find the match needed from the query"). -/
+theorem positional_no_match_is_error (op : String) (u : Updater) (hop : updaterOf op = some u)
+    (hu : u ≠ .unset)
+    (filter : Fields) (key f x : String) (v now : Val) (wi : Bool) (fs : Fields) (xs : List Val)
+    (q : Val) (hf : plainName f = true) (hx : plainName x = true)
+    (hkey : splitDots key = [f, "$", x]) (hdol : hasDollarPart key = true)
+    (hD : posDomain f filter q) (ha : dget f fs = some (.arr xs)) (hnum : pyInt? x = none)
+    (hC01 : ∀ el ∈ xs, filterApplies q el = specMatches q el)
+    (hok : ∀ el ∈ xs, ∃ b, specMatches q el = .ok b)
+    (hi : posIndex f filter xs = some none) :
+    ∃ e, applyUpdate (.doc filter) (.doc [(op, .doc [(key, v)])]) now wi (.doc fs) = .error e :=
+  Proofs.C02.positional_no_match_is_error op u hop hu filter key f x v now wi fs xs q hf hx hkey hdol
+    hD ha hnum hC01 hok hi
+
+/-- non-vacuity: `{a.k: 9}` on the example: the rule says error, the model raises; and why
+    `$unset` is left out: with no element to address it silently does nothing -/
+example : posIndex "a" [("a.k", .int 9)] exXs = some none ∧
+    (match applyUpdate (.doc [("a.k", .int 9)]) (.doc [("$set", .doc [("a.$.v", .int 9)])]) .null false (.doc exDoc) with
+     | .error .valueErr => true | _ => false) = true ∧
+    okIs (applyUpdate (.doc [("a.k", .int 9)]) (.doc [("$unset", .doc [("a.$.v", .str "")])]) .null false (.doc exDoc))
+      (.doc exDoc) = true := by
+  decide +kernel
+
+/-- **`f.$` as the whole path** with `$set` replaces the element at the resolved index — as the
+    rule has it.  (The statement holds for every `_updaters` operator, which is the finding
+    `positional-whole-element-op`: see below.) -/
+theorem positional_whole_element (op : String) (u : Updater) (hop : updaterOf op = some u)
+    (filter : Fields) (key f : String) (v now : Val) (wi : Bool) (fs : Fields) (xs : List Val)
+    (q : Val) (hf : plainName f = true)
+    (hkey : splitDots key = [f, "$"]) (hdol : hasDollarPart key = true)
+    (hD : posDomain f filter q) (ha : dget f fs = some (.arr xs))
+    (hC01 : ∀ el ∈ xs, filterApplies q el = specMatches q el)
+    (hok : ∀ el ∈ xs, ∃ b, specMatches q el = .ok b) (i : Nat)
+    (hi : posIndex f filter xs = some (some i)) :
+    applyUpdate (.doc filter) (.doc [(op, .doc [(key, v)])]) now wi (.doc fs) =
+      .ok (.doc (dset f (.arr (xs.set i v)) fs)) :=
+  Proofs.C02.positional_whole_element op u hop filter key f v now wi fs xs q hf hkey hdol hD ha hC01
+    hok i hi
+
+/-- non-vacuity, and the finding: `{$set: {a.$: 7}}` stores 7 as the second element; so does
+    `{$inc: {a.$: 7}}` (a server refuses to increment a document), and `{$unset: {a.$: ""}}`
+    stores `""` (a server stores null) -/
+example : splitDots "a.$" = ["a", "$"] ∧ hasDollarPart "a.$" = true ∧
+    okIs (applyUpdate (.doc [("a.k", .int 2)]) (.doc [("$set", .doc [("a.$", .int 7)])]) .null false (.doc exDoc))
+      (.doc [("_id", .int 1), ("a", .arr [.doc [("k", .int 1), ("v", .int 0)], .int 7,
+        .doc [("k", .int 2), ("v", .int 5)]]), ("c", .int 1)]) = true ∧
+    okIs (applyUpdate (.doc [("a.k", .int 2)]) (.doc [("$inc", .doc [("a.$", .int 7)])]) .null false (.doc exDoc))
+      (.doc [("_id", .int 1), ("a", .arr [.doc [("k", .int 1), ("v", .int 0)], .int 7,
+        .doc [("k", .int 2), ("v", .int 5)]]), ("c", .int 1)]) = true ∧
+    okIs (applyUpdate (.doc [("a.k", .int 2)]) (.doc [("$unset", .doc [("a.$", .str "")])]) .null false (.doc exDoc))
+      (.doc [("_id", .int 1), ("a", .arr [.doc [("k", .int 1), ("v", .int 0)], .str "",
+        .doc [("k", .int 2), ("v", .int 5)]]), ("c", .int 1)]) = true := by
+  decide +kernel
+
+/-- **`$push` through `f.$.l`**: with the query `f: {$elemMatch: q}` the value is pushed to the
+    array `l` of the first element matching `q` (`pushAt`: the `$push` theorems above describe the
+    edit), an error when there is none. -/
+theorem positional_push_first_match (filter : Fields) (key f l : String) (v now : Val) (wi : Bool)
+    (fs : Fields) (xs : List Val) (q : Val)
+    (hf : plainName f = true) (hl : plainName l = true)
+    (hkey : splitDots key = [f, "$", l]) (hdol : hasDollarPart key = true)
+    (hq : dget f filter = some (.doc [("$elemMatch", q)]))
+    (hD : posDomain f filter q) (ha : dget f fs = some (.arr xs))
+    (hC01 : ∀ el ∈ xs, filterApplies q el = specMatches q el)
+    (hok : ∀ el ∈ xs, ∃ b, specMatches q el = .ok b) :
+    applyUpdate (.doc filter) (.doc [("$push", .doc [(key, v)])]) now wi (.doc fs) =
+      match posIndex f filter xs with
+      | some (some i) =>
+        (match xs[i]? with
+         | some el => (pushAt v el l).map (fun el' => Val.doc (dset f (.arr (xs.set i el')) fs))
+         | none => unmodelled)
+      | _ => .error .writeErr :=
+  Proofs.C02.positional_push_first_match filter key f l v now wi fs xs q hf hl hkey hdol hq hD ha hC01
+    hok
+
+/-- non-vacuity: `$push` of 4 through `a.$.l` under `{a: {$elemMatch: {k: 2}}}` creates `l` in the
+    second element; and the finding `positional-needs-elemmatch`: under the dotted condition
+    `{a.k: 2}` — where the rule gives the same index — the model (as the code) raises WriteError -/
+example : okIs (applyUpdate (.doc [("a", .doc [("$elemMatch", .doc [("k", .int 2)])])])
+        (.doc [("$push", .doc [("a.$.l", .int 4)])]) .null false (.doc exDoc))
+      (.doc [("_id", .int 1), ("a", .arr [.doc [("k", .int 1), ("v", .int 0)],
+        .doc [("k", .int 2), ("v", .int 0), ("l", .arr [.int 4])], .doc [("k", .int 2), ("v", .int 5)]]),
+        ("c", .int 1)]) = true ∧
+    posIndex "a" [("a.k", .int 2)] exXs = some (some 1) ∧
+    (match applyUpdate (.doc [("a.k", .int 2)]) (.doc [("$push", .doc [("a.$.l", .int 4)])]) .null false (.doc exDoc) with
+     | .error .writeErr => true | _ => false) = true := by
+  decide +kernel
+
+/-! #### the rule without its domain: false of the code -/
+
+/-- the full-strength statement: whatever the query, `{$set: {"f.$.x": v}}` on a document whose
+    `f` is an array of documents does what the rule says (wherever the rule says something) -/
+def positional_rule_full : Prop :=
+  ∀ (filter : Fields) (key f x : String) (v now : Val) (wasInsert : Bool) (fs : Fields)
+    (xs : List Val), plainName f = true → plainName x = true → splitDots key = [f, "$", x] →
+    dget f fs = some (.arr xs) → pyInt? x = none → xs.all isDocVal = true →
+    Agrees (applyUpdate (.doc filter) (.doc [("$set", .doc [(key, v)])]) now wasInsert (.doc fs))
+      (positionalEdit f filter wasInsert (setField x v) fs)
+
+/-- It is false (known finding `positional-unconstrained`): the query `{c: 1}` holds no condition
+    on `a`; the rule makes `{$set: {a.$.v: 9}}` an error, the code (and the model) write into the
+    first element.  The same witness is replayed on the real code. -/
+theorem positional_rule_full_fails : ¬ positional_rule_full := by
+  intro h
+  have := h [("c", .int 1)] "a.$.v" "a" "v" (.int 9) .null false exDoc exXs (by decide +kernel)
+    (by decide +kernel) (by decide +kernel) (by decide +kernel) (by decide +kernel) (by decide +kernel)
+  have hs : positionalEdit "a" [("c", .int 1)] false (setField "v" (.int 9)) exDoc = some none := by
+    decide +kernel
+  rw [hs] at this
+  obtain ⟨e, he⟩ := this
+  have hi : applyUpdate (.doc [("c", .int 1)]) (.doc [("$set", .doc [("a.$.v", .int 9)])]) .null false
+      (.doc exDoc) = .ok (.doc [("_id", .int 1), ("a", .arr [.doc [("k", .int 1), ("v", .int 9)],
+        .doc [("k", .int 2), ("v", .int 0)], .doc [("k", .int 2), ("v", .int 5)]]), ("c", .int 1)]) := by
+    decide +kernel
+  rw [hi] at he
+  cases he
+
+/-- the other classes on their witnesses (each replayed on the real code as a known finding):
+    `positional-upsert` — on an upsert the rule says error, the model writes into the seed document
+    built from `{a.k: 5}`; `positional-prefix-key` — the key `ab` is taken for a condition on `a`
+    (AttributeError on its null operand); `positional-value-condition` — `{d: 2}` on an array of
+    numbers: the rule gives index 1, the model raises; `positional-carried-container` — the second
+    positional key `a.$.c.y` is applied to the element the first one reached (`y` lands in the
+    element, not in its `c`); `positional-missing-intermediate` — alone, `a.$.c.y` raises KeyError
+    because the element has no `c` (a server creates it) -/
+example :
+    positionalEdit "a" [("a.k", .int 5)] true (setField "v" (.int 9)) [("a", .doc [("k", .int 5)]), ("_id", .int 7)]
+      = some none ∧
+    okIs (applyUpdate (.doc [("a.k", .int 5)]) (.doc [("$set", .doc [("a.$.v", .int 9)])]) .null true
+        (.doc [("a", .doc [("k", .int 5)]), ("_id", .int 7)]))
+      (.doc [("a", .doc [("k", .int 5), ("v", .int 9)]), ("_id", .int 7)]) = true ∧
+    posIndex "a" [("a.k", .int 2), ("ab", .null)] exXs = some (some 1) ∧
+    (match applyUpdate (.doc [("a.k", .int 2), ("ab", .null)]) (.doc [("$set", .doc [("a.$.v", .int 9)])])
+        .null false (.doc exDoc) with
+     | .error .attrErr => true | _ => false) = true ∧
+    posIndex "d" [("d", .int 2)] [.int 1, .int 2, .int 3] = some (some 1) ∧
+    (match applyUpdate (.doc [("d", .int 2)]) (.doc [("$set", .doc [("d.$", .int 9)])]) .null false
+        (.doc [("_id", .int 1), ("d", .arr [.int 1, .int 2, .int 3])]) with
+     | .error .attrErr => true | _ => false) = true ∧
+    okIs (applyUpdate (.doc [("a.k", .int 2)])
+        (.doc [("$set", .doc [("a.$.v", .int 7), ("a.$.c.y", .int 3)])]) .null false (.doc exDoc))
+      (.doc [("_id", .int 1), ("a", .arr [.doc [("k", .int 1), ("v", .int 0)],
+        .doc [("k", .int 2), ("v", .int 7), ("y", .int 3)], .doc [("k", .int 2), ("v", .int 5)]]),
+        ("c", .int 1)]) = true ∧
+    (match applyUpdate (.doc [("a.k", .int 2)]) (.doc [("$set", .doc [("a.$.c.y", .int 3)])])
+        .null false (.doc exDoc) with
+     | .error .keyErr => true | _ => false) = true := by
+  decide +kernel
 
 end MongoModel.Props.C02
